@@ -25,12 +25,19 @@ RULE = ("hist: 5 fixed histories (the deliver / restart / deliver program of fin
         "counter collides). distinct = distinct input line; non-trivial = the history holds a reopen or restart and at least one "
         "successful delivery. reissue (corpus, every run): deliver / remove / REAL restart / deliver with both processes inside one "
         "wall-clock second (retried if the second rolled over): the witness of the open finding. After EVERY operation a freshly "
-        "constructed store's full state is compared with the live store object's (field live). Histories may change the cap at a reopen (C.<n>).")
+        "constructed store's full state is compared with the live store object's (field live). Histories may change the cap at a reopen (C.<n>). "
+        "visit (v) and one pass of the real RetentionScanner.DoScan with a 1 h period (t; deliveries are dated 2020 = expired or 2096 = young) are "
+        "operations of the histories, run on the store object under test: after most reopen / restart points the history goes on with "
+        "'deliver to a mailbox that does not exist yet, below a first-level directory of its own; [t;] v', and v / t also occur at random "
+        "positions; the walk must yield exactly the non-empty mailboxes of the ordered-map oracle, the scan must remove exactly the expired "
+        "messages of ALL mailboxes. The harness's own views (state before/after a reopen, live-vs-fresh) come from separate freshly "
+        "constructed store objects; the object under test is never walked by the harness.")
 TRUSTED = ["encoding/gob round trip: dec (enc i) = Some i (section hypothesis)",
            "the real Store object holds no mailbox state between calls (sampled by the correspondence run: state before = state after every reopen)"]
 ASSUMPTIONS = ["no I/O errors", "one operation at a time per mailbox (C09 covers interleavings)",
                "fewer than 10000 deliveries per second per process (the id counter wraps at 10000)"]
-NOT_PROVED = ["removed_stay_gone_stmt (Proofs/FileDiskWitness.v): the unguarded statement 'a removed id never names a message of the mailbox again' is FALSE in the model and in the code (removed_stay_gone_refuted, open finding K-C10-id-reissued-after-restart); proved instead: removed_stay_gone_partial under never_reissued"]
+NOT_PROVED = ["removed_stay_gone_stmt (Proofs/FileDiskWitness.v): the unguarded statement 'a removed id never names a message of the mailbox again' is FALSE in the model and in the code (removed_stay_gone_refuted, open finding K-C10-id-reissued-after-restart); proved instead: removed_stay_gone_partial under never_reissued",
+              "visit_complete_stmt (Proofs/FileDiskDurable.v): every non-empty mailbox listable by name is among the mailboxes the VisitMailboxes walk yields — not proved (needs a parent-directory invariant through all step lemmas); sampled on every run by the v / t operations of the histories against the ordered-map oracle"]
 
 
 def nontrivial(kind, ins, outs):
